@@ -36,6 +36,14 @@ def plan(tier, seed):
     # the classifier left by learn() (every RNG answer sequence): its prototypes against the samples
     # its nodes hold
     shards += [("learn", pi) for pi in range(24)]
+    # "all symmetric weight assignments": tables holding negative weights, and integer matrices whose
+    # weights differ only beyond the 53rd bit (exactly representable as int64, not as float64)
+    for a, b in E.chunks(E.n_graphs(4, 3), 250):
+        shards.append(("neg", 4, 3, a, b))
+    for a, b in E.chunks(E.n_graphs(5, 2), 256):
+        shards.append(("neg", 5, 2, a, b))
+    for a, b in E.chunks(E.n_graphs(4, 3), 250):
+        shards.append(("bigint", 4, 3, a, b))
     for a, b in E.chunks(E.n_graphs(4, 3), 250):
         shards.append(("semi", 3, 1, 3, True, a, b))
     for a, b in E.chunks(E.n_graphs(5, 2), 128):
@@ -50,6 +58,31 @@ warm = c01.warm
 def programs(shard, seed):
     if shard[0] == "sup":
         yield from c01.programs(shard[1:], seed)
+        return
+    if shard[0] in ("neg", "bigint"):
+        kind, n, m, a, b = shard
+        if kind == "neg":
+            table = [-5.0, -1.0, 2.0][:m] if m == 3 else [-1.0, 1.0]
+            if seed:
+                table = [v * [1.0, 0.5, 3.0, 7.0][seed % 4] for v in table]
+        else:
+            table = [2 ** 53, 2 ** 53 + 1, 2 ** 53 + 2]
+        for gi in range(a, b):
+            ranks = E.graph_ranks(n, m, gi)
+            W = [[0] * n for _ in range(n)]
+            for (i, j), r in zip(E.edges(n), ranks):
+                W[i][j] = W[j][i] = table[r]
+            for lab in E.labelings(n):
+                prog = {"model": "SupervisedOPF", "mode": "pre", "W": W,
+                        "labels": list(E.rename_classes(lab, seed))}
+                if kind == "bigint":
+                    prog["matrix_dtype"] = "int64"
+                yield prog
+                if kind == "neg" and n == 4:
+                    for nl in (3,):
+                        if len(set(lab[:nl])) >= 2:
+                            yield {"model": "SemiSupervisedOPF", "mode": "pre", "W": W,
+                                   "labels": list(E.rename_classes(lab, seed))[:nl], "n_unlabeled": n - nl}
         return
     _, nl, nu, m, zero, a, b = shard
     n = nl + nu
@@ -120,6 +153,13 @@ def judge(prog, obs, Wd, lab, res=None):
             return None
         mins = [0]
         fam = {kruskal_boundary(nl, ew, lab)}
+    elif all(isinstance(w, int) for w in ew):
+        # integer weights (possibly beyond 2**53): tree weights are summed exactly
+        trees = F.spanning_trees(nl)
+        tw = [sum(ew[e] for e in t) for t in trees]
+        mn = min(tw)
+        mins = [i for i, w in enumerate(tw) if w == mn]
+        fam = {_boundary(nl, int(ti), lab) for ti in mins}
     else:
         mins = F.mst_indices(nl, ew)
         fam = {_boundary(nl, int(ti), lab) for ti in mins}
